@@ -21,7 +21,7 @@ OBLIGATIONS = [
     "C09/P_nonvacuous.v",
 ]
 REFUTATIONS = ["C09/P_refuted.v"]
-PROOF_MODULES = []   # compiled by hand until listed in coq/_CoqProject (see the report)
+PROOF_MODULES = ["C09/ExpandSound3.vo", "C09/MultinomialProofs.vo", "C09/Examples.vo"]
 
 BIG = 6000
 
